@@ -105,13 +105,17 @@ func genConfig(rt *rapid.T, p *Profile) Config {
 			cfg.StreamWindow = rapid.SampledFrom([]int{64, 256, 512, 1024, 4096}).Draw(rt, "streamWindow")
 		}
 	}
-	switch rapid.IntRange(0, 5).Draw(rt, "denyKind") {
+	switch rapid.IntRange(0, 7).Draw(rt, "denyKind") {
 	case 0:
 		cfg.Deny = nil
 	case 1:
 		cfg.Deny = []int{0}
 	case 2:
 		cfg.Deny = []int{2, 3}
+	case 6:
+		cfg.Deny = []int{7} // an IPv6 peer, while other IPv6 peers stay allowed
+	case 7:
+		cfg.Deny = []int{3, 7}
 	default:
 		cfg.Deny = []int{3}
 	}
